@@ -22,10 +22,17 @@ for p in ALL:
         "level_note": m.LEVEL_NOTE,
         "technique": m.TECHNIQUE,
     })
-hooks_commits = []
+# hooks_commits.txt: lines "hook <sha> ..." are guarded instrumentation commits (none so far); lines "fix <sha> ..." are
+# unguarded repairs of genuine defects (recorded in known_findings.json, NOT hooks: they are not add-only by nature)
+hooks_commits, fix_commits = [], []
 hc = os.path.join(ROOT, "hooks_commits.txt")
 if os.path.exists(hc):
-    hooks_commits = [l.split()[0] for l in open(hc) if l.strip() and not l.startswith("#")]
+    for l in open(hc):
+        w = l.split()
+        if len(w) >= 2 and w[0] == "hook":
+            hooks_commits.append(w[1])
+        elif len(w) >= 2 and w[0] == "fix":
+            fix_commits.append(w[1])
 man = {
     "version": 1,
     "setup_cmd": "./setup.sh",
@@ -43,7 +50,9 @@ man = {
     }],
     "checks": checks,
     "not_applicable": na,
-    "notes": "See DESIGN.md. Every check: exit 0 = held, exit 1 + VIOLATION line, exit 2 = infrastructure error (e.g. /repo does not compile).",
+    "notes": "See DESIGN.md. Every check: exit 0 = held, exit 1 + VIOLATION line, exit 2 = infrastructure error (e.g. /repo does not compile). "
+             "No hook commits exist in /repo (hooks.source_commits is empty: all instrumentation is link-time interposition from the harness). "
+             "Unguarded repairs of genuine defects ('fix:' commits, listed as fixed in known_findings.json): " + ", ".join(fix_commits) + ".",
 }
 json.dump(man, open(os.path.join(ROOT, "MANIFEST.json"), "w"), indent=1)
 print("checks:", [c["property_id"] for c in checks], "n/a:", len(na))
